@@ -3,6 +3,7 @@ import ZCV.Lemmas.SlotsLoad
 import ZCV.Lemmas.SlotsElab
 import ZCV.Lemmas.SlotsEx
 import ZCV.Lemmas.ImportLoadEx
+import ZCV.Lemmas.HistoryEx
 namespace ZCV.Props.C12
 open ZCV ZCV.Cfg
 
@@ -775,5 +776,88 @@ example : Conf.denoteI Ex.conv Ex.schema Ex.pkgs Ex.topsIU =
 example : ∀ r, load Ex.conv Ex.env Ex.pkgs Ex.schema none ([] ++ "<leak/>".toList :: ["%import p".toList]) [] ≠ .ok r :=
   C12_header_before_import_rejected_text Ex.conv Ex.env Ex.pkgs Ex.schema none [] _ _ (fun _ _ h => by cases h)
     (fun _ h => by cases h) "leak".toList none true Ex.shape_leak rfl
+
+/-! ## abstract slots after a history, with the FAITHFUL history function (ZCV/Model/History.lean)
+
+"`%import` extends the vocabulary of that load only": for the TYPE table and the component marks this holds across loads
+(`C12_history_keeps_vocabulary`); for the implementer tables it does not (known findings C13-implementers-leak /
+C12-import-leak-accepts), and what a slot admits after a history is stated exactly (`C12_slot_after_history_admits_iff`). -/
+
+/-- **The vocabulary of the application's schema object survives every history**: whatever the loads imported – and
+    whether they succeeded or not – the schema object offers the same type names, the same concrete types and the same
+    components to the next load as it did to the first. -/
+theorem C12_history_keeps_vocabulary (conv : Conv) (env : Env) (pkgs : Str → Pkg) (s : Schema) (hist : List LoadReq) :
+    let s' := (runHistoryApp conv env pkgs s hist).2
+    s'.types.map (·.1) = s.types.map (·.1) ∧ s'.components = s.components ∧
+      (∀ x, s'.gettype x = none ↔ s.gettype x = none) ∧
+      (∀ x t, s'.gettype x = some (.concrete t) ↔ s.gettype x = some (.concrete t)) := by
+  intro s'
+  have hs : s' = s.withImplementers (historyRegs conv env pkgs s hist) := runHistoryApp_schema conv env pkgs hist s
+  rw [hs]
+  refine ⟨withImplementers_keys _ _, withImplementers_components _ _, ?_, fun x t => gettype_concrete_withImplementers _ _ x t⟩
+  intro x
+  rw [gettype_none_iff_keys, gettype_none_iff_keys, withImplementers_keys]
+
+/-- **What an abstract slot admits after a history, exactly.**  After any history on one schema object, the type `ty` counts
+    as an implementer of `a` (`isSubtype`, which is what `getsectioninfo` asks: `C12_slot_admits_iff`) iff it was listed in
+    the schema, or `a` is an abstract type of the schema and some load of the history made the `addsubtype` call
+    (`ty`, key of `a`) – i.e. (`C13_implementers_only_grow`) a component some load imported declares `ty implements a`. -/
+theorem C12_slot_after_history_admits_iff (conv : Conv) (env : Env) (pkgs : Str → Pkg) (s : Schema) (hist : List LoadReq)
+    (a ty : Str) :
+    isSubtype (runHistoryApp conv env pkgs s hist).2 a ty = true ↔
+      ty ∈ Conf.implementers s a ∨ (isAbstract s a = true ∧ (ty, lower a) ∈ historyRegs conv env pkgs s hist) := by
+  rw [isSubtype_iff_mem, runHistoryApp_schema]
+  exact mem_implementers_withImplementers s _ a ty
+
+/-- in particular a history without leak leaves every slot as it was -/
+theorem C12_slot_after_history_unchanged (conv : Conv) (env : Env) (pkgs : Str → Pkg) (s : Schema) (hist : List LoadReq)
+    (h : (runHistoryApp conv env pkgs s hist).2 = s) (a ty : Str) :
+    isSubtype (runHistoryApp conv env pkgs s hist).2 a ty = isSubtype s a ty := by rw [h]
+
+/-- **Counter-fact restated for the faithful history (known findings C13-implementers-leak / C12-import-leak-accepts).**
+    After the one-load history `%import p` the APPLICATION's schema object counts `leak` as an implementer of `ab`, which
+    it did not before – while the type `leak` itself is not in its vocabulary. -/
+theorem C12_faithful_import_this_load_only_counterexample :
+    isSubtype Ex.schema "ab".toList "leak".toList = false ∧
+      isSubtype (runHistoryApp Ex.conv Ex.env Ex.pkgs Ex.schema [HEx.qP]).2 "ab".toList "leak".toList = true ∧
+      (runHistoryApp Ex.conv Ex.env Ex.pkgs Ex.schema [HEx.qP]).2.gettype "leak".toList = none := by
+  have hs : (runHistoryApp Ex.conv Ex.env Ex.pkgs Ex.schema [HEx.qP]).2 = HEx.schemaL := by
+    rw [runHistoryApp_cons, HEx.appAfterLoad_p]; rfl
+  rw [hs]
+  exact ⟨by decide, by decide, by decide⟩
+
+/-- **The two-load witness (known finding C12-import-leak-accepts), in the faithful history.**  Package `p` defines
+    `leak implements ab`; package `q` defines a type of the same name that implements nothing.  History: `%import p`; then
+    `%import q` / `<leak/>`.  On the used schema object the second load is ACCEPTED – `q`'s `leak` sits in `ab`'s slot –
+    although the same load on a fresh schema object is REJECTED at line 2 ("no matching section defined"). -/
+theorem C12_leak_admits_non_implementer :
+    (∃ r1 r2, (runHistoryApp Ex.conv Ex.env HEx.pkgsH Ex.schema [HEx.qP, HEx.qTwin]).1 = [.ok r1, .ok r2] ∧
+      r2.value = .sect [] none [("s".toList, .list [.sect "leak".toList none []])]) ∧
+    load Ex.conv Ex.env HEx.pkgsH Ex.schema HEx.qTwin.url HEx.qTwin.lines HEx.qTwin.specs =
+      .error (synErr none 2 "start:no matching section defined") := by
+  obtain ⟨r1, hr1⟩ := HEx.load_pH
+  obtain ⟨r2, hr2, hv⟩ := HEx.load_twin_used
+  refine ⟨⟨r1, r2, ?_, hv⟩, HEx.load_twin_fresh⟩
+  rw [runHistoryApp_cons, runHistoryApp_cons, HEx.appAfterLoad_pH]
+  simp only [HEx.qP, HEx.qTwin, hr1, hr2]
+  rfl
+
+/-- `C12_slot_after_history_admits_iff` at work: the right-hand side holds through the call (`leak`, `ab`) of the history -/
+example : isAbstract Ex.schema "ab".toList = true ∧
+    ("leak".toList, lower "ab".toList) ∈ historyRegs Ex.conv Ex.env Ex.pkgs Ex.schema [HEx.qP] := by
+  unfold historyRegs
+  rw [show HEx.qP = ⟨none, ["%import p".toList], []⟩ from rfl, historyStops_cons, HEx.loadStop_p]
+  exact ⟨by decide, by decide⟩
+
+/-- `C12_history_keeps_vocabulary` at work on a history that DOES change the tables -/
+example : ((runHistoryApp Ex.conv Ex.env Ex.pkgs Ex.schema [HEx.qP]).2).types.map (·.1) = ["ab".toList] ∧
+    (runHistoryApp Ex.conv Ex.env Ex.pkgs Ex.schema [HEx.qP]).2 ≠ Ex.schema := by
+  have hs : (runHistoryApp Ex.conv Ex.env Ex.pkgs Ex.schema [HEx.qP]).2 = HEx.schemaL := by
+    rw [runHistoryApp_cons, HEx.appAfterLoad_p]; rfl
+  rw [hs]
+  refine ⟨rfl, ?_⟩
+  intro h
+  have : Conf.implementers HEx.schemaL "ab".toList = Conf.implementers Ex.schema "ab".toList := by rw [h]
+  exact absurd this (by decide)
 
 end ZCV.Props.C12
